@@ -9,7 +9,8 @@ set_option linter.unusedVariables false
 * `upath n lo hi above below px py pz qx qy qz refl theta0` →
   points (3 per point), length, tof, emitted (3), received (3), then `F rs.re rs.im rp.re rp.im` or `F err`;
   `err` when the path object would raise
-* `trace rho angle k {za zb nHere nNext trans top bottom aboveNone belowNone}×k` → per group `r angle` (`nan` for NaN)
+* `trace rho angle k {za zb nHere nNext nStop trans top bottom aboveNone belowNone}×k` → per group `r angle` (`nan` for NaN)
+* `step angle two trans nHere nNext nStop top bottom aboveNone belowNone turnAtBoundary` → next angle or `nan`
 * `chain px py pz qx qy qz k dr×k z×k` → the points of the chained solution
 * `fresnelT n1 n2 theta` / `fresnelR n1 n2 theta` → `s.re s.im p.re p.im`
 * `build maxLevel start down refl` → leaves `a,b,c|a,b` ; `potential maxLevel start stop maxRefl` → `up ; down` -/
@@ -33,15 +34,16 @@ def optTok (x : Option Float) : String := match x with | some v => tokOfFloat v 
 def pathsStr (ps : List (List Nat)) : String :=
   "|".intercalate (ps.map (fun p => ",".intercalate (p.map toString)))
 
-/-- groups of the `trace` request: 9 tokens each -/
+/-- groups of the `trace` request: 10 tokens each -/
 def parseGroups : Nat → List String → Option (List UGroup)
   | 0, [] => some []
-  | k + 1, za :: zb :: nh :: nn :: tr :: tp :: bt :: an :: bn :: rest => do
+  | k + 1, za :: zb :: nh :: nn :: ns :: tr :: tp :: bt :: an :: bn :: rest => do
     let za ← floatOfTok za; let zb ← floatOfTok zb; let nh ← floatOfTok nh; let nn ← floatOfTok nn
+    let ns ← floatOfTok ns
     let tr ← boolOfTok tr; let tp ← boolOfTok tp; let bt ← boolOfTok bt
     let an ← boolOfTok an; let bn ← boolOfTok bn
     let gs ← parseGroups k rest
-    pure (⟨⟨false, tr, nh, nn, tp, bt, an, bn, false⟩, [za, zb]⟩ :: gs)
+    pure (⟨⟨false, tr, nh, nn, ns, tp, bt, an, bn, false⟩, [za, zb]⟩ :: gs)
   | _, _ => none
 
 def handle (ts : List String) : String :=
@@ -78,6 +80,11 @@ def handle (ts : List String) : String :=
       | some gs => " ".intercalate ((traceU rh 0 ang gs).map (fun x => optTok x.1 ++ " " ++ optTok x.2))
       | none => "bad-op"
     | _, _, _ => "bad-op"
+  | ["step", ang, two, tr, nh, nn, ns, tp, bt, an, bn, tb] =>
+    match floatsOfToks [ang, nh, nn, ns], [two, tr, tp, bt, an, bn, tb].mapM boolOfTok with
+    | some [ang, nh, nn, ns], some [two, tr, tp, bt, an, bn, tb] =>
+      optTok (stepAngle ⟨two, tr, nh, nn, ns, tp, bt, an, bn, tb⟩ ang)
+    | _, _ => "bad-op"
   | "chain" :: px :: py :: pz :: qx :: qy :: qz :: k :: r =>
     match floatsOfToks [px, py, pz, qx, qy, qz], natOfTok k, floatsOfToks r with
     | some [px, py, pz, qx, qy, qz], some k, some xs =>
